@@ -2165,6 +2165,9 @@ func throughMap(d *spec.Design, a *spec.Attr, path string) bool {
 			if i < 0 {
 				i = len(path)
 			}
+			if t.Kind == spec.Map && path[:i] == "key" {
+				return true // a constraint on the map's keys
+			}
 			if t.Kind != spec.Object {
 				return false
 			}
